@@ -62,6 +62,14 @@ structure CallArg where
   shape : ArgShape
   deriving DecidableEq, Repr
 
+/-- a call site that draws from a random generator -/
+structure RngSite where
+  file : String
+  fn : String
+  callee : String
+  occ : Nat
+  deriving DecidableEq, Repr
+
 /-! ## provenance and the TRUSTED numpy classification -/
 
 /-- the caller's buffers: 0 obs, 1 cm_hist, 2 cm_future, 3 time_obs, 4 time_cm_hist, 5 time_cm_future -/
@@ -83,7 +91,7 @@ inductive NpOp
   | where_        -- `np.where(c, a, b)`
   | arith         -- `x + c`, `x * c`, `np.maximum(a, b)`, ufuncs without `out=`
   | copy          -- `x.copy()`
-  | astype        -- `x.astype(t)`, `x.filled(v)`, `np.array(x)`
+  | astype        -- `x.astype(t)`, `np.array(x)`, `masked.filled(v)` when a cell is masked (numpy returns the data buffer itself — `name` — when nothing is masked)
   | zerosLike     -- `np.zeros_like(x)`
   | emptyLike     -- `np.empty_like(x)`
   | alloc         -- `np.empty(shape)`, `np.zeros(n)`, `np.arange(…)`, `create_array_of_consecutive_dates`
@@ -191,7 +199,7 @@ inductive Stmt
 /-- how the debiaser is entered -/
 inductive Entry
   | applyLocation (times : Bool)          -- `deb.apply_location(obs, cm_hist, cm_future[, time_obs, time_cm_hist, time_cm_future])`
-  | apply (conv times : Bool)             -- `deb.apply(…)` on 3-d arrays; `conv`: the inputs are converted (int dtype / masked array)
+  | apply (conv times : Bool)             -- `deb.apply(…)` on 3-d arrays; `conv`: the inputs are copied by the input check (int dtype → astype; masked array with a masked cell → filled)
   deriving DecidableEq, Repr
 
 def Entry.times : Entry → Bool
@@ -797,6 +805,39 @@ def callArgOk : CallArg × NpOp → Bool
 /-- ISIMIP's window function — which writes into its arguments (steps 2 and 4) — is never handed an alias -/
 def isimipWindowArgsFresh : Bool :=
   callArgsJ.all (fun ao => !(ao.1.callee.toList == "_apply_on_window".toList) || !ao.2.aliases)
+
+/-! ## where random numbers are drawn -/
+
+/-- what switches a draw site on -/
+inductive RngGuard
+  | cdftSSR                 -- CDFt with `SSR = True`
+  | isimipImpute            -- ISIMIP with `impute_missing_values = True` (and a missing value in the window)
+  | isimipLower             -- ISIMIP with a lower bound and a lower threshold
+  | isimipUpper             -- ISIMIP with an upper bound and an upper threshold
+  | hurdleRandomization     -- `distribution` is a `gen_PrecipitationHurdleModel` with `cdf_randomization = True`
+  | censoredModel           -- `distribution` is a `gen_PrecipitationGammaLeftCensoredModel`
+  deriving DecidableEq, Repr
+
+/-- every call of `np.random.*` in the anchored files (all draw from numpy's GLOBAL generator), with its guard.  A
+    configuration none of whose guards is on is DETERMINISTIC: its output may not depend on the generator's state and a
+    call may not advance it (tier B checks exactly that). -/
+def rngSitesJ : List (RngSite × RngGuard) := [
+  (⟨"ibicus/debias/_cdft.py", "CDFt._randomize_zero_values_between_zero_and_threshold", "np.random.uniform", 1⟩, .cdftSSR),
+  (⟨"ibicus/debias/_isimip.py", Fn.step2Impute.py, "np.random.random", 1⟩, .isimipImpute),
+  (⟨"ibicus/debias/_isimip.py", Fn.step4Lower.py, "np.random.uniform", 1⟩, .isimipLower),
+  (⟨"ibicus/debias/_isimip.py", Fn.step4Upper.py, "np.random.uniform", 1⟩, .isimipUpper),
+  (⟨"ibicus/utils/_math_utils.py", "gen_PrecipitationHurdleModel.cdf", "np.random.uniform", 1⟩, .hurdleRandomization),
+  (⟨"ibicus/utils/_math_utils.py", "gen_PrecipitationGammaLeftCensoredModel.cdf", "np.random.uniform", 1⟩, .censoredModel)]
+
+def rngSites : List RngSite := rngSitesJ.map (·.1)
+
+/-- the guards a configuration of the alias model switches on (the two distribution-level guards are settings of the
+    `distribution` object, outside `Cfg`: the harness reads them off the instance) -/
+def Cfg.rngGuards : Cfg → List RngGuard
+  | .cdft _ _ _ true _ => [.cdftSSR]
+  | .isimipWindow impute _ lower upper _ _ =>
+      (if impute then [.isimipImpute] else []) ++ (if lower then [.isimipLower] else []) ++ (if upper then [.isimipUpper] else [])
+  | _ => []
 
 /-! ## the `self.<attr> = …` table -/
 
